@@ -19,6 +19,8 @@ impl ByteStreamReadBuffer {
         let consumed_bytes = self.offset / 8;
         let remaining_bytes = self.buffer.len() - consumed_bytes;
         self.offset -= consumed_bytes * 8;
+        #[cfg(e57_verif)]
+        crate::verif_trace::work(remaining_bytes + data.len());
         self.tmp.reserve(remaining_bytes + data.len());
         self.tmp.extend_from_slice(&self.buffer[consumed_bytes..]);
         self.tmp.extend_from_slice(data);
